@@ -67,7 +67,7 @@ def l1_sliding_e2(tier='quick', case=None, seed=0):
                     break
         res.append((name, r, model))
     out = dict(solver_calls=n, solver_s=round(tot, 3), paths=0, nontrivial=n + pts,
-               detail='%s; %s' % (mode, '; '.join('%s=%s' % (a, r) for a, r, _ in res)),
+               detail='%s; %s | %s' % (mode, '; '.join('%s=%s' % (a, r) for a, r, _ in res), T.cross_summary()),
                samples=[dict(lemma='L1_sliding/' + which, kind='reachability witness', input=m0),
                         dict(lemma='L1_sliding/' + which, kind='translator validation points vs real numpy function', count=pts)])
     sat = [x for x in res if x[1] == 'sat']
